@@ -52,6 +52,8 @@ pub(crate) fn repair_index<S: Open>(
     let be = repo.dbe();
     let mut checker = PackChecker::new(repo)?;
 
+    // replaced index files are only removed once all their entries are stored again
+    let mut indexes_remove = Vec::new();
     let p = repo.progress_counter("reading index...");
     for index in be.stream_all::<IndexFile>(&p)? {
         let (index_id, index) = index?;
@@ -62,7 +64,7 @@ pub(crate) fn repair_index<S: Open>(
                 if !new_index.packs.is_empty() || !new_index.packs_to_delete.is_empty() {
                     _ = be.save_file(&new_index)?;
                 }
-                be.remove(FileType::Index, &index_id, true)?;
+                indexes_remove.push(index_id);
             }
             (false, _) => {} // nothing to do
         }
@@ -108,6 +110,10 @@ pub(crate) fn repair_index<S: Open>(
     }
     indexer.write().unwrap().finalize()?;
     p.finish();
+
+    for index_id in indexes_remove {
+        be.remove(FileType::Index, &index_id, true)?;
+    }
 
     Ok(())
 }
